@@ -25,7 +25,7 @@ def _mk(srcs) -> list:
 SCALAR_SRCS = [
     "0", "1", "-1", "2", "255", "300", "True", "False", "0.0", "1.5", "-2.0", "1j", "''", "'a'", "'ab'",
     "b''", "b'a'", "b'ab'", "None", "Color.RED", "Color.GREEN", "Color.BLUE", "Num.ONE", "Num.TWO",
-    "A()", "A(1)", "B()", "B(1)", "C()", "DC(1)", "DC(2, 'z')",
+    "A()", "A(1)", "B()", "B(1)", "C()", "DC(1)", "DC(2, 'z')", "AC()",
 ]
 CLASS_SRCS = ["int", "bool", "str", "bytes", "float", "A", "B", "C", "Color", "Num", "list", "type", "object", "DC"]
 CONTAINER_SRCS = [
